@@ -64,6 +64,9 @@ struct OpOut
   SchedOut sched;
   std::vector<Event> events;
   int live_after = -1; // bufferctrl::haslive() after the run (0 expected)
+  bool threw = false;       // the operation left by std::bad_alloc (injected allocation failure)
+  bool fault_fired = false; // the injected allocation failure was reached
+  uint32_t allocs_seen = 0; // allocations of the code under test during the operation
   bytes ser() const;
   static OpOut de(const bytes &b);
 };
@@ -77,6 +80,7 @@ struct PipeCfg
   int outbuf = 0; // stdio buffering of the output stream: 0 default, 1 unbuffered, 2 64-byte buffer
   bool want_events = false;
   bool want_log = false;
+  long fail_new = -2; // >= 0: the n-th allocation of the code under test fails once (std::bad_alloc); -1: count only; -2: off
 };
 
 bool has_scheduler(); // true in the sched builds
@@ -132,8 +136,11 @@ struct HmacCall
 };
 std::vector<bytes> hmac_seq(const std::vector<HmacCall> &calls, int refill_units); // returns file after writeFileHmac
 
-void aes_encrypt_block(const uint8_t key[16], uint8_t block[16]);
-void aes_decrypt_block(const uint8_t key[16], uint8_t block[16]);
+// off = address residue (mod 16) of the block handed to the library; canary_report() returns a message (once)
+// if a call wrote outside its 16 bytes
+void aes_encrypt_block(const uint8_t key[16], uint8_t block[16], int off = 0);
+void aes_decrypt_block(const uint8_t key[16], uint8_t block[16], int off = 0);
+const char *canary_report();
 const uint8_t *tab_sbox();
 const uint8_t *tab_rsbox();
 const uint8_t *tab_log();
@@ -142,7 +149,7 @@ const uint8_t *tab_rc();   // 11 entries
 uint8_t gmul(int u, uint8_t v); // the library's Gmul macro
 
 void *mode_new(bool enc, int type, const uint8_t key[16], const uint8_t iv[16]); // NULL for unknown type
-void mode_run(void *h, uint8_t block[16]);
+void mode_run(void *h, uint8_t block[16], int off = 0);
 void mode_free(void *h);
 void *factory_new(const uint8_t key[16], const uint8_t iv[16]);
 void *factory_make(void *f, bool enc, int type);
